@@ -11,6 +11,7 @@ import (
 	"fmt"
 	"reflect"
 	"strings"
+	"unsafe"
 
 	"github.com/samber/ro"
 	"verif.local/vrt"
@@ -430,6 +431,7 @@ type pushCore struct {
 	s    *Src
 	dsts []pushDst
 	seq  int
+	sync int64 // stands for the lock a real hot source keeps its subscriber list under
 }
 
 type pushDst struct {
@@ -454,6 +456,8 @@ func (p *pushCore) add(ctx context.Context, d interface{}) int {
 		p.s.MaxOpen = open
 	}
 	p.dsts = append(p.dsts, pushDst{d: d, ctx: ctx, live: true})
+	// registering a subscriber happens before every later emission to it (a real source synchronises here)
+	vrt.RaceReleaseMerge(unsafe.Pointer(&p.sync))
 	return len(p.dsts) - 1
 }
 
@@ -462,6 +466,7 @@ func (p *pushCore) drop(i int) { p.dsts[i].live = false }
 
 //go:norace
 func (p *pushCore) targets() []pushDst {
+	vrt.RaceAcquire(unsafe.Pointer(&p.sync))
 	var out []pushDst
 	for _, d := range p.dsts {
 		if d.live {
